@@ -56,7 +56,7 @@ def main():
         ],
         "checks": checks,
         "not_applicable": na,
-        "notes": "See DESIGN.md. Exit codes: 0 held, 1 violation (VIOLATION line), 2 machinery failure. known_findings.json lists genuine defects recorded rather than repaired.",
+        "notes": "See DESIGN.md (section 12 = as built) and spec/README.md. Exit codes: 0 held, 1 violation (VIOLATION line), 2 machinery failure; every check accepts --replay <file>. known_findings.json lists genuine defects repaired (fixed: ...) or recorded (open). Beyond the listed properties: checks/ext_pool.py, checks/ext_octree.py, checks/ext_multitrace.py (evidence in evidence_ext/), spec/proofs/ColouringProof.tla (TLAPS, re-checked by c16), selftest/run.py (bindings: recorded traces accepted, corrupted ones rejected; --mutants runs the code mutants).",
     }
     with open(os.path.join(VERIF, "MANIFEST.json"), "w") as f:
         json.dump(m, f, indent=1)
